@@ -95,7 +95,8 @@ def precomputeCoefficients (inSize : Nat) (in0 in1 : Float) (outSize : Nat) (flt
   if scale < 0.0 || scale.isNaN then return Coeffs.empty
   let filterScale := if adaptive then (if scale < 1.0 then 1.0 else scale) else 1.0   -- scale.max(1.0)
   let filterRadius := flt.support * filterScale
-  let windowSize := filterRadius.ceil.toUSize.toNat * 2 + 1
+  -- `(filter_radius.ceil() as usize).saturating_mul(2).saturating_add(1).min(in_size as usize)`
+  let windowSize := min (min (filterRadius.ceil.toUSize.toNat * 2 + 1) 18446744073709551615) inSize
   let recipFilterScale := 1.0 / filterScale
   let mut coeffs : Array Float := Array.mkEmpty (windowSize * outSize)
   let mut bounds : Array (Nat × Nat) := Array.mkEmpty outSize
